@@ -5,7 +5,6 @@ import (
 	"go/constant"
 	"go/token"
 	"go/types"
-	"strings"
 
 	"golang.org/x/tools/go/ssa"
 
@@ -588,9 +587,7 @@ func checkC18(p *core.Program, r *core.Report) {
 	_ = types.Typ
 	const R9 = "C18.R9 one-state-record-per-ski"
 	r.Rule(R9, "every access to the per-SKI service record uses the normalised SKI (shared with C15.R1): a lookup under another spelling creates a fresh record that replaces the stored pairing state, so PairingDetailForSki reports None after the last notification said otherwise - and no notification tells the application")
-	importRules(p, r, "C15", map[string]string{"C15.R1 normalise-before-use": R9}, func(key string) bool {
-		return strings.Contains(key, "remoteServices") || !strings.Contains(key, " -> ")
-	})
+	importRules(p, r, "C15", map[string]string{"C15.R1 normalise-before-use": R9}, nil)
 }
 
 // isHubValue: v is (a pointer to) the Hub itself or one of its fields - hub-wide, not per-SKI state.
